@@ -27,6 +27,7 @@ sub!(update, "update.rs");
 sub!(updrun, "updrun.rs");
 sub!(cmd, "cmd.rs");
 sub!(imports, "imports.rs");
+sub!(c15, "c15.rs");
 
 /// SplitMix64: every random choice of a run derives from one state.
 pub struct Rng(pub u64);
@@ -307,6 +308,7 @@ fn run() {
             cmd::run(&mut report);
         }
         "C07" => imports::run(&mut report),
+        "C15" => c15::run(&mut report),
         other => panic!("no runner for property {other}"),
     }
     report.write();
